@@ -127,6 +127,7 @@ pub fn c01_input(data: &[u8], acc: &mut Acc) -> CaseResult {
         gen: "fuzz",
         one_call: ch.chance(1, 4),
         real_tc: false,
+        deep: 0,
     };
     acc.case();
     props::c01::check_case(&case, acc)
